@@ -95,7 +95,9 @@ func newStats() *Stats {
 		Threads: map[string]int{}, NumCPU: map[string]int{}, Kinds: map[string]int{}, Cmds: map[string]int{}, Nontrivial: map[uint64]bool{}, Traces: map[uint64]bool{}, Partials: map[uint64]bool{}, KnownHits: map[string]int{}}
 }
 
-const maxHashes = 2000000
+// distinct-case / trace sets are capped (memory): a worker keeps at most maxHashes entries per set,
+// the master at most 32x that; when a cap is reached the reported distinct counts are lower bounds.
+var maxHashes = 2000000
 
 func addHash(m map[uint64]bool, h uint64) {
 	if len(m) < maxHashes {
